@@ -139,6 +139,58 @@ def step (line : String) : String :=
       | "ext" => (key.pub, msg, sig ++ hex! a)
       | _ => (key.pub, msg, sig)
     s!"bv={bundledVerdict pub msg sig} sv={stdVerdict pub msg sig}"
+  | "ali" =>
+    -- the value of an operation does not depend on which object receives it: patterns f / r1 / r2 use (A, B),
+    -- patterns ab / all use (A, A)
+    let a := hx 3
+    let b := if arg 2 == "ab" || arg 2 == "all" then hx 3 else hx 4
+    match arg 1 with
+    | "add" => toHex (scMarshal (Gen.Ed25519Sc.scAdd shrI a b))
+    | "sub" => toHex (scMarshal (Gen.Ed25519Sc.scSub shrI a b))
+    | "mul" => toHex (scMarshal (Gen.Ed25519Sc.scMul shrI a b))
+    | "div" => toHex (scMarshal (Gen.Ed25519Sc.scMul shrI a (scInv b)))
+    | "neg" => toHex (scMarshal (Gen.Ed25519Sc.scSub shrI zero32 a))
+    | "inv" => toHex (scMarshal (scInv a))
+    | "set" => toHex (scMarshal a)
+    | _ => "bad ali op"
+  | "sca" =>
+    let same := arg 2 == "in" || arg 2 == "all"
+    let a := hx 3
+    let b := if same then a else hx 4
+    let c := if same then a else hx 5
+    match arg 1 with
+    | "muladd" => toHex (Gen.Ed25519Sc.scMulAdd shrI a b c)
+    | "add" => toHex (Gen.Ed25519Sc.scAdd shrI a b)
+    | "sub" => toHex (Gen.Ed25519Sc.scSub shrI a b)
+    | "mul" => toHex (Gen.Ed25519Sc.scMul shrI a b)
+    | _ => "bad sca op"
+  | "pta" =>
+    match g.dec (hx 3), g.dec (hx 4) with
+    | some P, some Q0 =>
+      let Q := if arg 2 == "ab" || arg 2 == "all" then P else Q0
+      let s := leNat (hx 5)
+      match arg 1 with
+      | "add" => toHex (g.enc (Ed.add P Q))
+      | "sub" => toHex (g.enc (Ed.add P (Ed.neg Q)))
+      | "neg" => toHex (g.enc (Ed.neg P))
+      | "mul" => toHex (g.enc (Ed.smul s P))
+      | "mulbase" => toHex (g.enc (Ed.smul s Ed.base))
+      | _ => "bad pta op"
+    | _, _ => "operand does not decode"
+  | "apx" =>
+    match arg 1 with
+    | "setint64" =>
+      let t := arg 2
+      let v : Nat := if t.startsWith "-" then (ell - ((t.drop 1).toString.toNat?.getD 0) % ell) % ell
+                     else (t.toNat?.getD 0) % ell
+      toHex (natLE 32 v)
+    | "zero" => toHex (natLE 32 0)
+    | "one" => toHex (natLE 32 1)
+    | "pick" => toHex (natLE 32 (nonceOf (hx 2)))
+    | "clone" => toHex (scMarshal (hx 2))
+    | "equal" => s!"equal={hx 2 == hx 3} self=true"
+    | "string" => String.join ((scMarshal (hx 2)).map hexOfByte)
+    | _ => "bad apx op"
   | _ => "bad case line"
 
 end C20
